@@ -36,7 +36,7 @@ theorem escapeValue_eq (v : Bytes) : escapeValue v = v.flatMap escByte := by
   exact this
 
 theorem escByte_eq : ∀ c : UInt8, escByte c =
-    if c = 92 then [92, 92] else if c = 13 then [92, 114] else if c = 10 then [92, 110]
+    if c = 92 then [92, 92] else if c = 10 then [92, 110]
     else if c = 9 then [92, 116] else if c = 34 then [92, 34] else [c] := by
   apply forall_u8
   decide +kernel
@@ -60,8 +60,8 @@ theorem parseLoop_esc (d v : UInt8) (rest ret ws : Bytes) (inq : Bool) (h : escL
     parseLoop (Gen.Config.parseEscapeChar :: d :: rest) ret ws inq = parseLoop rest (ret ++ ws ++ [v]) [] inq := by
   simp [parseLoop, h]
 
-/-- inside quotes every byte except CR comes back -/
-theorem parseLoop_step_quoted (c : UInt8) (h13 : c ≠ 13) (tail ret : Bytes) :
+/-- inside quotes every byte comes back (CR is written raw and is an ordinary byte to the loop) -/
+theorem parseLoop_step_quoted (c : UInt8) (tail ret : Bytes) :
     parseLoop (escByte c ++ tail) ret [] true = parseLoop tail (ret ++ [c]) [] true := by
   rw [escByte_eq]
   by_cases h92 : c = 92
@@ -72,15 +72,15 @@ theorem parseLoop_step_quoted (c : UInt8) (h13 : c ≠ 13) (tail ret : Bytes) :
   · subst h9; exact parseLoop_esc 116 9 tail ret [] true (by decide) |>.trans (by simp)
   by_cases h34 : c = 34
   · subst h34; exact parseLoop_esc 34 34 tail ret [] true (by decide) |>.trans (by simp)
-  simp only [h92, h13, h10, h9, h34, if_false, List.singleton_append]
+  simp only [h92, h10, h9, h34, if_false, List.singleton_append]
   rw [parseLoop_cons_ne c tail ret [] true h92]
   by_cases h32 : c = 32
   · subst h32; simp [isCommentChar, isBlankChar, Gen.Config.parseQuoteChar, Gen.Config.whitespaceChars]
   · simp [isCommentChar, isBlankChar, Gen.Config.parseQuoteChar, Gen.Config.whitespaceChars, h34, h9, h32]
 
 
-/-- outside quotes: every byte except CR, `#`, `;`; a raw space goes to the pending-whitespace buffer -/
-theorem parseLoop_step_plain (c : UInt8) (h13 : c ≠ 13) (h35 : c ≠ 35) (h59 : c ≠ 59) (tail ret ws : Bytes) :
+/-- outside quotes: every byte except `#`, `;`; a raw space goes to the pending-whitespace buffer -/
+theorem parseLoop_step_plain (c : UInt8) (h35 : c ≠ 35) (h59 : c ≠ 59) (tail ret ws : Bytes) :
     parseLoop (escByte c ++ tail) ret ws false =
       if c = 32 then parseLoop tail ret (ws ++ [c]) false else parseLoop tail (ret ++ ws ++ [c]) [] false := by
   rw [escByte_eq]
@@ -92,7 +92,7 @@ theorem parseLoop_step_plain (c : UInt8) (h13 : c ≠ 13) (h35 : c ≠ 35) (h59 
   · subst h9; exact parseLoop_esc 116 9 tail ret ws false (by decide) |>.trans (by simp)
   by_cases h34 : c = 34
   · subst h34; exact parseLoop_esc 34 34 tail ret ws false (by decide) |>.trans (by simp)
-  simp only [h92, h13, h10, h9, h34, if_false, List.singleton_append]
+  simp only [h92, h10, h9, h34, if_false, List.singleton_append]
   rw [parseLoop_cons_ne c tail ret ws false h92]
   by_cases h32 : c = 32
   · subst h32; simp [isCommentChar, isBlankChar, Gen.Config.parseQuoteChar, Gen.Config.whitespaceChars,
@@ -100,34 +100,33 @@ theorem parseLoop_step_plain (c : UInt8) (h13 : c ≠ 13) (h35 : c ≠ 35) (h59 
   · simp [isCommentChar, isBlankChar, Gen.Config.parseQuoteChar, Gen.Config.whitespaceChars,
       Gen.Config.commentChars, h34, h9, h32, h35, h59]
 
-theorem parseLoop_quoted (v : Bytes) : ∀ (tail ret : Bytes), ¬ 13 ∈ v →
+theorem parseLoop_quoted (v : Bytes) : ∀ (tail ret : Bytes),
     parseLoop (v.flatMap escByte ++ tail) ret [] true = parseLoop tail (ret ++ v) [] true := by
   induction v with
-  | nil => intro tail ret _; simp
+  | nil => intro tail ret; simp
   | cons c v ih =>
-    intro tail ret h
-    simp only [List.mem_cons, not_or] at h
-    rw [List.flatMap_cons, List.append_assoc, parseLoop_step_quoted c (fun e => h.1 e.symm), ih _ _ h.2]
+    intro tail ret
+    rw [List.flatMap_cons, List.append_assoc, parseLoop_step_quoted c, ih _ _]
     simp
 
 /-- the state `(ret, whitespace)` after reading one more source byte outside quotes -/
 def absorb (s : Bytes × Bytes) (c : UInt8) : Bytes × Bytes :=
   if c = 32 then (s.1, s.2 ++ [c]) else (s.1 ++ s.2 ++ [c], [])
 
-theorem parseLoop_plain (v : Bytes) : ∀ (tail ret ws : Bytes), ¬ 13 ∈ v → ¬ 35 ∈ v → ¬ 59 ∈ v →
+theorem parseLoop_plain (v : Bytes) : ∀ (tail ret ws : Bytes), ¬ 35 ∈ v → ¬ 59 ∈ v →
     parseLoop (v.flatMap escByte ++ tail) ret ws false =
       parseLoop tail (v.foldl absorb (ret, ws)).1 (v.foldl absorb (ret, ws)).2 false := by
   induction v with
-  | nil => intro tail ret ws _ _ _; simp
+  | nil => intro tail ret ws _ _; simp
   | cons c v ih =>
-    intro tail ret ws h13 h35 h59
-    simp only [List.mem_cons, not_or] at h13 h35 h59
+    intro tail ret ws h35 h59
+    simp only [List.mem_cons, not_or] at h35 h59
     rw [List.flatMap_cons, List.append_assoc,
-      parseLoop_step_plain c (fun e => h13.1 e.symm) (fun e => h35.1 e.symm) (fun e => h59.1 e.symm)]
+      parseLoop_step_plain c (fun e => h35.1 e.symm) (fun e => h59.1 e.symm)]
     simp only [List.foldl_cons, absorb]
     split
-    · exact ih _ _ _ h13.2 h35.2 h59.2
-    · exact ih _ _ _ h13.2 h35.2 h59.2
+    · exact ih _ _ _ h35.2 h59.2
+    · exact ih _ _ _ h35.2 h59.2
 
 theorem absorb_concat (s : Bytes × Bytes) (v : Bytes) :
     (v.foldl absorb s).1 ++ (v.foldl absorb s).2 = s.1 ++ s.2 ++ v := by
@@ -192,32 +191,32 @@ theorem strip_line_of_edges {x : Bytes} (h : Edges x) : strip (32 :: (x ++ [10])
 theorem escByte_ne_nil : ∀ c : UInt8, escByte c ≠ [] := by
   apply forall_u8; decide +kernel
 
-theorem escByte_head_ok : ∀ c : UInt8, c = 9 ∨ c = 32 ∨ c = 11 ∨ c = 12 ∨ c = 13 ∨
+theorem escByte_head_ok : ∀ c : UInt8, isPyWs c = true ∨
     (escByte c).head?.any (fun a => !isPyWs a) = true := by
   apply forall_u8; decide +kernel
 
-theorem escByte_last_ok : ∀ c : UInt8, c = 9 ∨ c = 32 ∨ c = 11 ∨ c = 12 ∨ c = 13 ∨
+theorem escByte_last_ok : ∀ c : UInt8, isPyWs c = true ∨
     (escByte c).getLast?.any (fun a => !isPyWs a) = true := by
   apply forall_u8; decide +kernel
 
 theorem edges_escaped (v : Bytes)
-    (hh : ∀ a, v.head? = some a → a ≠ 9 ∧ a ≠ 32 ∧ a ≠ 11 ∧ a ≠ 12 ∧ a ≠ 13)
-    (hl : ∀ b, v.getLast? = some b → b ≠ 9 ∧ b ≠ 32 ∧ b ≠ 11 ∧ b ≠ 12 ∧ b ≠ 13) :
+    (hh : ∀ a, v.head? = some a → isPyWs a = false)
+    (hl : ∀ b, v.getLast? = some b → isPyWs b = false) :
     Edges (v.flatMap escByte) := by
   cases v with
   | nil => left; rfl
   | cons a rest =>
     right
-    obtain ⟨h1, h2, h3, h4, h5⟩ := hh a rfl
+    have h1 := hh a rfl
     cases hgl : (a :: rest).getLast? with
     | none => simp at hgl
     | some b =>
       obtain ⟨ys, hys⟩ := List.getLast?_eq_some_iff.mp hgl
-      obtain ⟨g1, g2, g3, g4, g5⟩ := hl b hgl
+      have g1 := hl b hgl
       have ha := escByte_head_ok a
       have hb := escByte_last_ok b
-      simp only [h1, h2, h3, h4, h5, false_or] at ha
-      simp only [g1, g2, g3, g4, g5, false_or] at hb
+      simp only [h1, Bool.false_eq_true, false_or] at ha
+      simp only [g1, Bool.false_eq_true, false_or] at hb
       cases hha : (escByte a).head? with
       | none => simp [hha] at ha
       | some a' =>
@@ -230,45 +229,67 @@ theorem edges_escaped (v : Bytes)
           · rw [List.flatMap_cons, List.head?_append, hha]; rfl
           · rw [hys, List.flatMap_append, List.flatMap_singleton, List.getLast?_append, hhb]; rfl
 
+/-! ### `value != value.strip()` -/
+
+theorem length_dropWhile_le (p : UInt8 → Bool) (l : Bytes) : (l.dropWhile p).length ≤ l.length := by
+  induction l with
+  | nil => simp
+  | cons a l ih =>
+    rw [List.dropWhile_cons]
+    split
+    · simp only [List.length_cons]; omega
+    · simp
+
+theorem head_of_dropWhile_eq_self {p : UInt8 → Bool} {l : Bytes} (h : (l.dropWhile p).length = l.length)
+    (a : UInt8) (ha : l.head? = some a) : p a = false := by
+  cases l with
+  | nil => simp at ha
+  | cons x l =>
+    simp only [List.head?_cons, Option.some.injEq] at ha
+    subst ha
+    cases hp : p x with
+    | false => rfl
+    | true =>
+      rw [List.dropWhile_cons, hp] at h
+      simp only [if_true, List.length_cons] at h
+      have := length_dropWhile_le p l
+      omega
+
+/-- a value `strip()` leaves alone neither starts nor ends with a byte `strip()` removes -/
+theorem edges_of_strip_eq {v : Bytes} (h : strip v = v) :
+    (∀ a, v.head? = some a → isPyWs a = false) ∧ (∀ b, v.getLast? = some b → isPyWs b = false) := by
+  have hlen : (strip v).length = v.length := by rw [h]
+  have h1 : (lstrip v).length ≤ v.length := length_dropWhile_le _ _
+  have h2 : (strip v).length ≤ (lstrip v).length := by
+    unfold strip rstrip
+    rw [List.length_reverse]
+    have := length_dropWhile_le isPyWs (lstrip v).reverse
+    rwa [List.length_reverse] at this
+  have hl : (lstrip v).length = v.length := by omega
+  have hhead := head_of_dropWhile_eq_self (p := isPyWs) (l := v) hl
+  refine ⟨hhead, ?_⟩
+  -- nothing was removed on the left, so `lstrip v = v`; then nothing was removed on the right either
+  have hlv : lstrip v = v := by
+    cases v with
+    | nil => rfl
+    | cons x t => exact lstrip_of_head rfl (hhead x rfl)
+  have hr : (v.reverse.dropWhile isPyWs).length = v.reverse.length := by
+    have : (strip v).length = (v.reverse.dropWhile isPyWs).length := by
+      unfold strip rstrip; rw [hlv, List.length_reverse]
+    rw [← this, hlen, List.length_reverse]
+  intro b hb
+  exact head_of_dropWhile_eq_self hr b (by rw [List.head?_reverse]; exact hb)
 
 /-! ### unpacking the decidable predicates -/
 
 theorem needsQuote_false {v : Bytes} (h : needsQuote v = false) :
-    (∀ a, v.head? = some a → a ≠ 32 ∧ a ≠ 9) ∧ (∀ b, v.getLast? = some b → b ≠ 32 ∧ b ≠ 9) ∧ ¬ 35 ∈ v := by
+    strip v = v ∧ ¬ 35 ∈ v ∧ ¬ 59 ∈ v ∧ ¬ 13 ∈ v := by
   unfold needsQuote at h
-  simp only [Bool.or_eq_false_iff] at h
-  obtain ⟨⟨h1, h2⟩, h3⟩ := h
-  refine ⟨?_, ?_, ?_⟩
-  · intro a ha
-    rw [ha] at h1
-    simp [Gen.Config.quoteIfStartsWith] at h1
-    exact h1
-  · intro b hb
-    rw [hb] at h2
-    simp [Gen.Config.quoteIfEndsWith] at h2
-    exact h2
-  · simp [Gen.Config.quoteIfContains] at h3
-    exact fun hm => h3 35 hm rfl
-
-theorem wfValue_unpack {v : Bytes} (h : wfValue v = true) :
-    ¬ 13 ∈ v ∧ (needsQuote v = true ∨
-      (needsQuote v = false ∧ ¬ 59 ∈ v ∧ (∀ a, v.head? = some a → a ≠ 11 ∧ a ≠ 12) ∧
-        (∀ b, v.getLast? = some b → b ≠ 11 ∧ b ≠ 12))) := by
-  unfold wfValue at h
-  simp only [Bool.and_eq_true, Bool.not_eq_true', Bool.or_eq_true] at h
-  obtain ⟨h13, h⟩ := h
-  refine ⟨by simpa [CR] using h13, ?_⟩
-  cases hq : needsQuote v with
-  | true => left; rfl
-  | false =>
-    right
-    rw [hq] at h
-    simp only [Bool.false_eq_true, false_or] at h
-    obtain ⟨⟨h59, hh⟩, hl⟩ := h
-    refine ⟨rfl, by simpa [SEMI] using h59, ?_, ?_⟩
-    · intro a ha; rw [ha] at hh; simp [VT, FF] at hh; exact hh
-    · intro b hb; rw [hb] at hl; simp [VT, FF] at hl; exact hl
-
+  simp only [Bool.or_eq_false_iff, Gen.Config.quoteIfStripChanges, Bool.true_and] at h
+  obtain ⟨⟨⟨h0, _⟩, _⟩, h3⟩ := h
+  have hs : strip v = v := by simpa using h0
+  simp [Gen.Config.quoteIfContains] at h3
+  exact ⟨hs, fun hm => (h3 35 hm).1 rfl, fun hm => (h3 59 hm).2.1 rfl, fun hm => (h3 13 hm).2.2 rfl⟩
 
 /-! ### subsection escaping -/
 
@@ -322,55 +343,31 @@ theorem sectionChar_plain : ∀ c : UInt8, (isAlnum c || Gen.Config.sectionNameE
   apply forall_u8; unfold Plain; decide +kernel
 
 theorem stripCommentsAux_plain (P : Bytes) (hP : ∀ c ∈ P, Plain c) (rest : Bytes) (opn : Bool) :
-    stripCommentsAux (P ++ rest) opn = P ++ stripCommentsAux rest opn := by
+    stripCommentsAux (P ++ rest) opn false = P ++ stripCommentsAux rest opn false := by
   induction P with
   | nil => rfl
   | cons c P ih =>
-    obtain ⟨h34, _, _, h35, h59⟩ := hP c (by simp)
+    obtain ⟨h34, h92, _, h35, h59⟩ := hP c (by simp)
     have := ih (fun d hd => hP d (by simp [hd]))
-    simp [stripCommentsAux, Gen.Config.stripCommentQuote, Gen.Config.stripCommentChars, h34, h35, h59, this]
+    simp [stripCommentsAux, Gen.Config.stripCommentQuote, Gen.Config.stripCommentChars,
+      Gen.Config.stripCommentEscape, h34, h92, h35, h59, this]
 
-/-- parity of the number of `"` seen, as `_strip_comments` tracks it -/
-def quoteParity : Bytes → Bool → Bool
-  | [], o => o
-  | c :: r, o => quoteParity r (if c = 34 then !o else o)
-
-theorem stripCommentsAux_escaped (s : Bytes) : ∀ (odd : Bool) (rest : Bytes), subCommentHazard s odd = false →
-    stripCommentsAux (s.flatMap subEscByte ++ rest) (!odd) =
-      s.flatMap subEscByte ++ stripCommentsAux rest (!(quoteParity s odd)) := by
+/-- inside the quoted, escaped subsection `_strip_comments` (now escape-aware) never leaves the string
+and never cuts -/
+theorem stripCommentsAux_escaped (s : Bytes) (rest : Bytes) :
+    stripCommentsAux (s.flatMap subEscByte ++ rest) true false =
+      s.flatMap subEscByte ++ stripCommentsAux rest true false := by
   induction s with
-  | nil => intro odd rest _; rfl
+  | nil => rfl
   | cons c s ih =>
-    intro odd rest hz
     rw [List.flatMap_cons, List.append_assoc, subEscByte_eq]
     by_cases h34 : c = 34
     · subst h34
-      simp only [subCommentHazard, Gen.Config.stripCommentQuote, if_true] at hz
-      have := ih (!odd) rest hz
-      simp only [Bool.not_not] at this
-      simp [stripCommentsAux, Gen.Config.stripCommentQuote, Gen.Config.stripCommentChars, quoteParity, this]
+      simp [stripCommentsAux, Gen.Config.stripCommentEscape, ih]
     by_cases h92 : c = 92
     · subst h92
-      simp only [subCommentHazard, Gen.Config.stripCommentQuote, Gen.Config.stripCommentChars] at hz
-      have hz' : subCommentHazard s odd = false := by
-        revert hz; cases odd <;> simp
-      have := ih odd rest hz'
-      simp [stripCommentsAux, Gen.Config.stripCommentQuote, Gen.Config.stripCommentChars, quoteParity, this]
-    simp only [h34, h92, if_false, List.singleton_append]
-    simp only [subCommentHazard, Gen.Config.stripCommentQuote, h34, if_false] at hz
-    split at hz
-    · cases hz
-    · rename_i hc
-      have := ih odd rest hz
-      simp only [Bool.and_eq_true, not_and, Bool.not_eq_true] at hc
-      cases odd with
-      | false =>
-        simp only [Bool.not_false] at this
-        simp [stripCommentsAux, Gen.Config.stripCommentQuote, h34, quoteParity, this]
-      | true =>
-        have hc' : ¬ c ∈ Gen.Config.stripCommentChars := by simpa using hc rfl
-        simp only [Bool.not_true] at this
-        simp [stripCommentsAux, Gen.Config.stripCommentQuote, h34, quoteParity, this, hc']
+      simp [stripCommentsAux, Gen.Config.stripCommentEscape, ih]
+    simp [h34, h92, stripCommentsAux, Gen.Config.stripCommentQuote, Gen.Config.stripCommentEscape, ih]
 
 theorem findClose_plain (P : Bytes) (hP : ∀ c ∈ P, Plain c) (rest : Bytes) (inq : Bool) (i : Nat) :
     findClose (P ++ rest) inq false i = findClose rest inq false (i + P.length) := by
@@ -455,12 +452,11 @@ theorem take_drop_mid (a b : UInt8) (M : Bytes) :
     ((a :: (M ++ [b])).take (M.length + 1)).drop 1 = M ∧ (a :: (M ++ [b])).drop (M.length + 1 + 1) = [] := by
   simp
 
-theorem stripCommentsAux_close (o : Bool) : stripCommentsAux [34, 93, 10] o = [34, 93, 10] := by
-  cases o <;> decide
+theorem stripCommentsAux_close : stripCommentsAux [34, 93, 10] true false = [34, 93, 10] := by
+  decide
 
 /-- `[name "escaped-subsection"]\n` is read back as `(name, subsection)` -/
-theorem parseHeader_written_sub (name sub : Bytes) (hn : checkSectionName name = true)
-    (hs : subCommentHazard sub false = false) :
+theorem parseHeader_written_sub (name sub : Bytes) (hn : checkSectionName name = true) :
     parseHeader (91 :: name ++ [32, 34] ++ sub.flatMap subEscByte ++ [34, 93, 10]) = .ok ((name, some sub), []) := by
   obtain ⟨hP0, h32⟩ := name_plain hn
   generalize hE : sub.flatMap subEscByte = E
@@ -475,10 +471,9 @@ theorem parseHeader_written_sub (name sub : Bytes) (hn : checkSectionName name =
     unfold stripComments
     rw [stripCommentsAux_plain _ hP]
     congr 1
-    have := stripCommentsAux_escaped sub false [34, 93, 10] hs
+    have := stripCommentsAux_escaped sub [34, 93, 10]
     rw [hE, stripCommentsAux_close] at this
-    simp only [Bool.not_false] at this
-    simp [stripCommentsAux, Gen.Config.stripCommentQuote, this]
+    simp [stripCommentsAux, Gen.Config.stripCommentQuote, Gen.Config.stripCommentEscape, this]
   let M : Bytes := name ++ 32 :: 34 :: (E ++ [34])
   have e1 : rstrip (stripComments (91 :: name ++ [32, 34] ++ E ++ [34, 93, 10])) = 91 :: (M ++ [93]) := by
     rw [e0]
@@ -562,7 +557,7 @@ def escByteRev (c : UInt8) : Bytes := (escByte c).reverse
 
 theorem escByteRev_bs : escByteRev 92 = [92, 92] := by decide
 
-theorem escByteRev_head : ∀ c : UInt8, (escByteRev c).head?.any (fun a => a ≠ 13 && (c = 92 || a ≠ 92)) = true := by
+theorem escByteRev_head : ∀ c : UInt8, (escByteRev c).head?.any (fun a => (c = 13 || a ≠ 13) && (c = 92 || a ≠ 92)) = true := by
   apply forall_u8; decide +kernel
 
 /-- `trailingCount 92` on the reversed list -/
@@ -627,7 +622,10 @@ theorem formatted_rev (v : Bytes) : ∃ r0 R, (32 :: formatString v).reverse = r
   · refine ⟨34, (escapeValue v).reverse ++ [34, 32], ?_, by decide, ?_⟩
     · simp [Gen.Config.formatQuoteOpen, Gen.Config.formatQuoteClose]
     · rw [tcRev_cons_ne 34 _ (by decide)]
-  · rw [escapeValue_eq]
+  · rename_i hq
+    have hq' : needsQuote v = false := by simpa using hq
+    obtain ⟨_, _, _, h13⟩ := needsQuote_false hq'
+    rw [escapeValue_eq]
     have hrev : (32 :: v.flatMap escByte).reverse = v.reverse.flatMap escByteRev ++ [32] := by
       rw [List.reverse_cons, List.reverse_flatMap]; rfl
     rw [hrev]
@@ -636,11 +634,15 @@ theorem formatted_rev (v : Bytes) : ∃ r0 R, (32 :: formatString v).reverse = r
     | nil => exact ⟨32, [], by simp, by decide, by decide⟩
     | cons c w =>
       rw [hw] at hev
+      have hc13 : c ≠ 13 := by
+        intro e
+        have : c ∈ v.reverse := by rw [hw]; simp
+        exact h13 (e ▸ List.mem_reverse.mp this)
       have := escByteRev_head c
       cases hh : escByteRev c with
       | nil => simp [hh] at this
       | cons a t =>
-        simp [hh] at this
+        simp [hh, hc13] at this
         rw [List.flatMap_cons, hh] at hev ⊢
         exact ⟨a, t ++ (w.flatMap escByteRev ++ [32]), by simp, this.1, by simpa using hev⟩
 
@@ -653,48 +655,50 @@ theorem no_continuation (v : Bytes) : isLineContinuation (32 :: (formatString v 
 /-! ### the value theorem's two halves -/
 
 /-- the reader's loop returns the value on what the writer emitted (before `strip()` is considered) -/
-theorem parseLoop_format (v : Bytes) (h : wfValue v = true) :
-    parseLoop (formatString v) [] [] false = .ok v := by
-  obtain ⟨h13, hq | ⟨hq, h59, _, _⟩⟩ := wfValue_unpack h
-  · -- quoted: `"` escaped `"`
+theorem parseLoop_format (v : Bytes) : parseLoop (formatString v) [] [] false = .ok v := by
+  cases hq : needsQuote v with
+  | true =>
+    -- quoted: `"` escaped `"`
     simp only [formatString, hq, if_true, escapeValue_eq, Gen.Config.formatQuoteOpen,
       Gen.Config.formatQuoteClose, List.cons_append, List.nil_append]
     rw [parseLoop_cons_ne 34 _ [] [] false (by decide)]
     simp only [Gen.Config.parseQuoteChar, if_true, Bool.not_false]
-    rw [parseLoop_quoted v [34] [] h13, parseLoop_cons_ne 34 [] _ [] true (by decide)]
+    rw [parseLoop_quoted v [34] [], parseLoop_cons_ne 34 [] _ [] true (by decide)]
     simp [Gen.Config.parseQuoteChar, parseLoop, parseFinish]
-  · -- unquoted
-    obtain ⟨_, hlast, h35⟩ := needsQuote_false hq
+  | false =>
+    -- unquoted: no comment character, and `strip()` would not change the value
+    obtain ⟨hs, h35, h59, _⟩ := needsQuote_false hq
+    obtain ⟨_, hlast⟩ := edges_of_strip_eq hs
     have hf : formatString v = v.flatMap escByte := by simp [formatString, hq, escapeValue_eq]
     rw [hf]
-    have := parseLoop_plain v [] [] [] h13 h35 h59
+    have := parseLoop_plain v [] [] [] h35 h59
     rw [List.append_nil] at this
     rw [this]
     rcases List.eq_nil_or_concat v with rfl | ⟨ys, l, rfl⟩
     · rfl
     · rw [List.concat_eq_append] at hlast ⊢
-      have hl : l ≠ 32 := (hlast l (by simp)).1
+      have hl : l ≠ 32 := by
+        intro e
+        have := hlast l (by simp)
+        rw [e] at this
+        exact absurd this (by decide)
       rw [absorb_last ys l hl]
       simp [parseLoop, parseFinish]
 
 /-- the writer's output starts and ends with bytes `strip()` keeps (or is empty) -/
-theorem edges_format (v : Bytes) (h : wfValue v = true) : Edges (formatString v) := by
-  obtain ⟨h13, hq | ⟨hq, _, hh, hl⟩⟩ := wfValue_unpack h
-  · right
+theorem edges_format (v : Bytes) : Edges (formatString v) := by
+  cases hq : needsQuote v with
+  | true =>
+    right
     refine ⟨34, 34, ?_, by decide, ?_, by decide⟩
     · simp [formatString, hq, Gen.Config.formatQuoteOpen]
     · simp [formatString, hq, Gen.Config.formatQuoteClose]
-  · obtain ⟨hh', hl', _⟩ := needsQuote_false hq
+  | false =>
+    obtain ⟨hs, _, _, _⟩ := needsQuote_false hq
+    obtain ⟨hh, hl⟩ := edges_of_strip_eq hs
     have hf : formatString v = v.flatMap escByte := by simp [formatString, hq, escapeValue_eq]
     rw [hf]
-    apply edges_escaped
-    · intro a ha
-      have hm : a ∈ v := List.mem_of_mem_head? (by rw [ha]; rfl)
-      exact ⟨(hh' a ha).2, (hh' a ha).1, (hh a ha).1, (hh a ha).2, fun e => h13 (e ▸ hm)⟩
-    · intro b hb
-      have hm : b ∈ v := List.mem_of_getLast? hb
-      exact ⟨(hl' b hb).2, (hl' b hb).1, (hl b hb).1, (hl b hb).2, fun e => h13 (e ▸ hm)⟩
-
+    exact edges_escaped v hh hl
 
 /-! ### whole files: one line at a time -/
 
@@ -718,7 +722,7 @@ theorem parseHeader_written (sec : Section) (hdr : Bytes) (h : wfSection sec = t
       subst hw
       obtain ⟨he, _, _⟩ := escapeSubsection_ok hesc
       subst he
-      exact parseHeader_written_sub name sub h.1 h.2.2
+      exact parseHeader_written_sub name sub h.1
 
 /-- a written header is `[` … without inner LF, then LF -/
 theorem writeHeader_shape (sec : Section) (hdr : Bytes) (h : wfSection sec = true)
@@ -853,7 +857,7 @@ theorem entryLine_shape (k v : Bytes) (hk : wfKey k = true) :
   simp [h1, h2]
 
 theorem readLine_entry (pre : Cfg) (sec : Section) (ds : Entries) (k v : Bytes)
-    (hk : wfKey k = true) (hv : wfValue v = true) (hpre : ∀ e ∈ pre, sameSection e.1 sec = false) :
+    (hk : wfKey k = true) (hpre : ∀ e ∈ pre, sameSection e.1 sec = false) :
     readLine { cfg := pre ++ [(sec, ds)], sec := some sec, pending := none } false (entryLine (k, v)) =
       .ok { cfg := pre ++ [(sec, ds ++ [(k, v)])], sec := some sec, pending := none } := by
   obtain ⟨hne, hcv, hc⟩ := key_facts hk
@@ -899,7 +903,7 @@ theorem readLine_entry (pre : Cfg) (sec : Section) (ds : Entries) (k v : Bytes)
   have f7 : isLineContinuation (32 :: (F ++ [10])) = false := no_continuation v
   have f8 : parseString (32 :: (F ++ [10])) = .ok v := by
     unfold parseString
-    rw [strip_line_of_edges (edges_format v hv), parseLoop_format v hv]
+    rw [strip_line_of_edges (edges_format v), parseLoop_format v]
   have f9 : cfgAppend (pre ++ [(sec, ds)]) sec (a :: k') v = pre ++ [(sec, ds ++ [(a :: k', v)])] := by
     unfold cfgAppend
     rw [cfgModify_last pre sec ds _ hpre]; rfl
@@ -927,11 +931,11 @@ theorem readLines_entries (pre : Cfg) (sec : Section) (hpre : ∀ e ∈ pre, sam
     intro ds rest hwf
     obtain ⟨k, v⟩ := e
     simp only [wfEntries, List.all_cons, Bool.and_eq_true] at hwf
-    obtain ⟨⟨hk, hv⟩, hd⟩ := hwf
+    obtain ⟨hk, hd⟩ := hwf
     obtain ⟨body, hb, hlf⟩ := entryLine_shape k v hk
     have hw : writeEntries ((k, v) :: d) ++ rest = (body ++ [10]) ++ (writeEntries d ++ rest) := by
       simp only [writeEntries, List.flatMap_cons, writeEntry_eq, hb, List.append_assoc]
-    rw [hw, readLines_cons_line _ _ body _ hlf, ← hb, readLine_entry pre sec ds k v hk hv hpre]
+    rw [hw, readLines_cons_line _ _ body _ hlf, ← hb, readLine_entry pre sec ds k v hk hpre]
     simp only
     rw [ih (ds ++ [(k, v)]) rest (by simpa [wfEntries] using hd)]
     simp
